@@ -887,7 +887,9 @@ class SoftwareSwitchBase (object):
     packet.payload.pcp = action.vlan_pcp & 0x7
     return packet
   def _action_strip_vlan (self, action, packet, in_port):
-    if isinstance(packet.payload, vlan):
+    if isinstance(packet.payload, vlan) and packet.payload.payload is not None:
+      # (a tag which is too short to have been parsed has no payload and
+      # is left alone)
       packet.type = packet.payload.eth_type
       packet.payload = packet.payload.payload
     return packet
